@@ -1164,7 +1164,7 @@ impl<'m, 'a> Driver<'m, 'a> {
     fn op_set_fn_name(&mut self, rng: &mut Rng) -> Result<bool, (String, PanicInfo)> {
         // Module::set_fn_name decides import-vs-local by comparing the id with the number of
         // imported functions, which is only meaningful for ids of the parsed module
-        let cands = self.live_funcs(|e| !e.added);
+        let cands = self.live_funcs(|_| true);
         if cands.is_empty() {
             return Ok(false);
         }
